@@ -18,6 +18,11 @@
      (default 1) while x < stop, or while x > stop for a negative step; step 0 unspecified;
      `continue` proceeds to the increment; `break` leaves the innermost loop), written with fuel:
      a loop exceeding [loop_fuel] iterations is [Unspec].
+   * STATEFUL VARIABLES ("x $= e persists across function invocations"): the initialiser takes
+     effect the first time the declaration is executed; afterwards the variable holds whatever
+     was last assigned to it, in this and in later invocations. The environment records at
+     index [st_flag i] whether stateful variable i has been initialised; [spec_calls] threads
+     the stateful part of the environment from one invocation to the next.
    No proofs in this file. *)
 From Coq Require Import ZArith List Bool Zpow_facts.
 From Synnax Require Import Arc.Syntax.
@@ -107,6 +112,8 @@ Section Sem.
     end.
 
   Definition env := nat -> val.
+  (* where the environment records that stateful variable i has been initialised *)
+  Definition st_flag (i : nat) : nat := (4096 + i)%nat.
   Definition upd (r : env) (i : nat) (v : val) : env := fun j => if Nat.eqb j i then v else r j.
 
   (* iterations after which a loop is given up as unspecified *)
@@ -122,7 +129,7 @@ Section Sem.
       match e with
       | ELit _ z => Ok (VI z)
       | ELitF t b => Ok (VF (f_of_bits fo t b))
-      | EVar i => Ok (r i)
+      | EVar i | ESVar i => Ok (r i)
       | EParen a => eval r a
       | ENeg a =>
           bind (eval r a) (fun v =>
@@ -177,7 +184,7 @@ Section Sem.
       end.
 
     (* statements *)
-    Inductive outcome := Next (r : env) | Ret (v : val) | Brk (r : env) | Cont (r : env).
+    Inductive outcome := Next (r : env) | Ret (v : val) (r : env) | Brk (r : env) | Cont (r : env).
 
     Definition compound (r : env) (i : nat) (op : arith) (v : val) : res val :=
       match nth_error tys i, r i, v with
@@ -198,7 +205,7 @@ Section Sem.
       | SIf c th el =>
           bind (eval r c) (fun vc => bind (cond_true vc) (fun b =>
             if b then exec_block r th else exec_els r el))
-      | SReturn e => bind (eval r e) (fun v => Ok (Ret v))
+      | SReturn e => bind (eval r e) (fun v => Ok (Ret v r))
       | SFor c b =>
           (fix iter (n : nat) (r : env) : res outcome :=
              match n with
@@ -210,7 +217,7 @@ Section Sem.
                        match o with
                        | Next r' | Cont r' => iter n' r'
                        | Brk r' => Ok (Next r')
-                       | Ret v => Ok (Ret v)
+                       | Ret v rr => Ok (Ret v rr)
                        end)
                    else Ok (Next r)))
              end) loop_fuel r
@@ -223,7 +230,7 @@ Section Sem.
                    match o with
                    | Next r' | Cont r' => iter n' r'
                    | Brk r' => Ok (Next r')
-                   | Ret v => Ok (Ret v)
+                   | Ret v rr => Ok (Ret v rr)
                    end)
              end) loop_fuel r
       | SRange i lim t start stop step b =>
@@ -249,7 +256,7 @@ Section Sem.
                                    | _ => Unspec
                                    end
                                | Brk r' => Ok (Next r')
-                               | Ret v => Ok (Ret v)
+                               | Ret v rr => Ok (Ret v rr)
                                end)
                        | _ => Unspec
                        end
@@ -258,6 +265,14 @@ Section Sem.
             end)))
       | SBreak => Ok (Brk r)
       | SContinue => Ok (Cont r)
+      | SStateDecl i _ e =>
+          match r (st_flag i) with
+          | VI 1 => Ok (Next r)                       (* already initialised: keeps its value *)
+          | _ => bind (eval r e) (fun v => Ok (Next (upd (upd r i v) (st_flag i) (VI 1))))
+          end
+      | SSAssign i e => bind (eval r e) (fun v => Ok (Next (upd r i v)))
+      | SSCompound i op e =>
+          bind (eval r e) (fun v => bind (compound r i op v) (fun v' => Ok (Next (upd r i v'))))
       end
     with exec_block (r : env) (b : block) : res outcome :=
       match b with
@@ -290,7 +305,28 @@ Section Sem.
   (* calling f on argument values: the value of the first executed return *)
   Definition spec_run (f : func) (args : list val) : res val :=
     bind (exec_block (f_tys f) (env_of args) (f_body f)) (fun o =>
-      match o with Ret v => Ok v | _ => Unspec end).
+      match o with Ret v _ => Ok v | _ => Unspec end).
+
+  (* a sequence of invocations: the stateful variables [sv] (and their flags) carry over.
+     After an invocation without a value (runtime error / unspecified) nothing is known about
+     the state: the remaining invocations are [Unspec]. *)
+  Definition carry (sv : list nat) (prev : env) (args : list val) : env :=
+    fun j => if existsb (fun i => Nat.eqb j i || Nat.eqb j (st_flag i)) sv then prev j else env_of args j.
+
+  Fixpoint spec_calls_from (f : func) (sv : list nat) (prev : env) (calls : list (list val))
+    : list (res val) :=
+    match calls with
+    | [] => []
+    | a :: rest =>
+        match exec_block (f_tys f) (carry sv prev a) (f_body f) with
+        | Ok (Ret v r') => Ok v :: spec_calls_from f sv r' rest
+        | Ok _ => map (fun _ => Unspec) calls
+        | RtErr => RtErr :: map (fun _ => Unspec) rest
+        | Unspec => map (fun _ => Unspec) calls
+        end
+    end.
+  Definition spec_calls (f : func) (sv : list nat) (calls : list (list val)) : list (res val) :=
+    spec_calls_from f sv (fun _ => VI 0) calls.
 End Sem.
 
 Arguments VI {fo}. Arguments VF {fo}.
